@@ -7,6 +7,8 @@ import (
 	"math/big"
 	"math/rand"
 	"sort"
+	"strings"
+	"sync"
 	"testing"
 
 	"verifharness/internal/vh"
@@ -73,7 +75,7 @@ func (w *world) payerName(primary, secondary util.Uint160) string {
 }
 
 // mempool.Feer
-func (w *world) FeePerByte() int64 { return w.fpb }
+func (w *world) FeePerByte() int64   { return w.fpb }
 func (w *world) BlockHeight() uint32 { return w.h }
 func (w *world) GetUtilityTokenBalance(p, s util.Uint160) *big.Int {
 	return big.NewInt(w.bal[w.payerName(p, s)] * unit)
@@ -221,6 +223,7 @@ func runHistory(res *vh.Result, tr *vh.Trace, src string, hist []Step) {
 	}
 	tr.Emit(map[string]any{"event": "init", "txs": txs, "cap": hist[0].Cap, "bal": scaled(w.bal), "src": src})
 	var opsDone []any
+	conc := strings.HasPrefix(src, "rnd-") && strings.HasSuffix(src, "c")
 	for si, st := range hist[1:] {
 		var (
 			opErr   error
@@ -230,7 +233,37 @@ func runHistory(res *vh.Result, tr *vh.Trace, src string, hist []Step) {
 			defer func() { paniced = recover() }()
 			switch st.Op {
 			case "add":
-				opErr = mp.Add(w.txs[st.Tx-1], w)
+				if conc {
+					// the same transaction offered by two producers (P2P relay and RPC) at the same moment
+					var wg sync.WaitGroup
+					errs := make([]error, 2)
+					pans := make([]any, 2)
+					start := make(chan struct{})
+					for g := 0; g < 2; g++ {
+						wg.Add(1)
+						go func(g int) {
+							defer wg.Done()
+							defer func() { pans[g] = recover() }()
+							<-start
+							errs[g] = mp.Add(w.txs[st.Tx-1], w)
+						}(g)
+					}
+					close(start)
+					wg.Wait()
+					if pans[0] != nil || pans[1] != nil {
+						panic(fmt.Sprint(pans[0], pans[1]))
+					}
+					opErr = errs[0]
+					if errs[1] == nil || errs[0] == nil {
+						opErr = nil
+					}
+					if errs[0] == nil && errs[1] == nil {
+						res.Inc("concurrent_adds_both_ok", 1)
+					}
+					res.Inc("concurrent_add_rounds", 1)
+				} else {
+					opErr = mp.Add(w.txs[st.Tx-1], w)
+				}
 			case "remove":
 				mp.Remove(w.txs[st.Tx-1].Hash())
 			case "stale":
@@ -373,7 +406,11 @@ func TestDriver(t *testing.T) {
 	nr := vh.EnvInt("VERIF_RANDOM", 200)
 	r := vh.Rand(8)
 	for i := 0; i < nr; i++ {
-		runHistory(res, tr, fmt.Sprintf("rnd-%d", i), randomUniverse(r))
+		u := randomUniverse(r)
+		runHistory(res, tr, fmt.Sprintf("rnd-%d", i), u)
+		if i%3 == 0 { // the same history with every addition made by two producers at once
+			runHistory(res, tr, fmt.Sprintf("rnd-%dc", i), u)
+		}
 	}
 	res.Inc("random_histories", nr)
 	tr.Close()
